@@ -287,25 +287,57 @@ def coveredSites : List (String × String) :=
    ("src/chess/piece.rs", "hash"),           -- `piece_key_index_lt`
    ("src/chess/piece.rs", "score")]          -- `score_index_lt`
 
-/-- **the generated inventory of unchecked sites is exactly the covered classes**: 24 sites, each
-in a covered `(file, function)`, and no covered class is stale.  A new or moved unchecked site in
-the Rust source changes `Gen.unsafeSites` and breaks this theorem. -/
+/-- the unchecked operations analysed, per `(file, function, kind)`, with the number of occurrences the
+theorems of this file account for -/
+def analysedSites : List ((String × String × String) × Nat) :=
+  [(("src/chess/gamestate.rs", "hash", "get_unchecked"), 1),
+   (("src/chess/gamestate.rs", "hash", "unsafe_block"), 1),
+   (("src/chess/mod.rs", "get_moves", "push_unchecked"), 1),
+   (("src/chess/mod.rs", "get_moves", "unsafe_block"), 1),
+   (("src/chess/mod.rs", "get_position", "get_unchecked"), 1),
+   (("src/chess/mod.rs", "get_position", "unsafe_block"), 1),
+   (("src/chess/mod.rs", "push", "push_unchecked"), 1),
+   (("src/chess/mod.rs", "push", "unsafe_block"), 1),
+   (("src/chess/mod.rs", "set_position", "get_unchecked_mut"), 3),
+   (("src/chess/mod.rs", "set_position", "unsafe_block"), 1),
+   (("src/chess/mod.rs", "state", "unsafe_block"), 1),
+   (("src/chess/mod.rs", "state", "unwrap_unchecked"), 1),
+   (("src/chess/piece.rs", "get_pawn_moves", "add_unsafe"), 3),
+   (("src/chess/piece.rs", "get_pawn_moves", "unsafe_block"), 1),
+   (("src/chess/piece.rs", "hash", "get_unchecked"), 2),
+   (("src/chess/piece.rs", "hash", "unsafe_block"), 1),
+   (("src/chess/piece.rs", "score", "get_unchecked"), 1),
+   (("src/chess/piece.rs", "score", "new_unsafe"), 1),
+   (("src/chess/piece.rs", "score", "unsafe_block"), 1)]
+
+/-- how many occurrences of an unchecked operation are accounted for -/
+def analysedCount (e : String × String × String) : Nat :=
+  match analysedSites.find? (·.1 == e) with
+  | some (_, n) => n
+  | none => 0
+
+/-- **every unchecked site of the generated inventory is an analysed one**: each lies in a covered
+`(file, function)` class and occurs at most as often as the analysis accounts for.  A NEW, MOVED or
+DUPLICATED unchecked site in the Rust source changes `Gen.unsafeSites` and breaks this theorem; a site
+that DISAPPEARS (an unchecked access rewritten as a checked one) does not — there is then one obligation
+fewer, not one unproved. -/
 theorem unsafe_inventory :
-    Gen.unsafeSites.length = 24
-    ∧ Gen.unsafeSiteCount = 24
+    Gen.unsafeSites.length = Gen.unsafeSiteCount
     ∧ (Gen.unsafeSites.all fun e => coveredSites.contains (e.1, e.2.1)) = true
-    ∧ (coveredSites.all fun c => Gen.unsafeSites.any fun e => (e.1, e.2.1) == c) = true := by
+    ∧ (Gen.unsafeSites.all fun e => decide (Gen.unsafeSites.count e ≤ analysedCount e)) = true
+    ∧ (analysedSites.all fun a => coveredSites.contains (a.1.1, a.1.2.1)) = true
+    ∧ (analysedSites.foldl (fun s a => s + a.2) 0) = 24 := by
   decide
 
-/-- the kinds of unchecked operation present, with multiplicity -/
+/-- the kinds of unchecked operation present never exceed what was analysed -/
 theorem unsafe_kinds :
-    (Gen.unsafeSites.filter (·.2.2 == "unsafe_block")).length = 9
-    ∧ (Gen.unsafeSites.filter (·.2.2 == "get_unchecked")).length = 5
-    ∧ (Gen.unsafeSites.filter (·.2.2 == "get_unchecked_mut")).length = 3
-    ∧ (Gen.unsafeSites.filter (·.2.2 == "push_unchecked")).length = 2
-    ∧ (Gen.unsafeSites.filter (·.2.2 == "unwrap_unchecked")).length = 1
-    ∧ (Gen.unsafeSites.filter (·.2.2 == "add_unsafe")).length = 3
-    ∧ (Gen.unsafeSites.filter (·.2.2 == "new_unsafe")).length = 1 := by
+    (Gen.unsafeSites.filter (·.2.2 == "unsafe_block")).length ≤ 9
+    ∧ (Gen.unsafeSites.filter (·.2.2 == "get_unchecked")).length ≤ 5
+    ∧ (Gen.unsafeSites.filter (·.2.2 == "get_unchecked_mut")).length ≤ 3
+    ∧ (Gen.unsafeSites.filter (·.2.2 == "push_unchecked")).length ≤ 2
+    ∧ (Gen.unsafeSites.filter (·.2.2 == "unwrap_unchecked")).length ≤ 1
+    ∧ (Gen.unsafeSites.filter (·.2.2 == "add_unsafe")).length ≤ 3
+    ∧ (Gen.unsafeSites.filter (·.2.2 == "new_unsafe")).length ≤ 1 := by
   decide
 
 /-! ## 3. History and killer indices -/
